@@ -168,7 +168,11 @@ def rule_group(ctx, R):
     # the loop head again without assigning kind, dot count, location and raw text
     for nm, key in (("kind", M.kind), ("dot count", M.dot), ("location", M.loc), ("raw text", M.raw)):
         dblocks = [db for (db, di) in vars_.def_sites(key) if db in M.loop]
-        R.check(bool(dblocks) and not reaches_without(cfg, [sb], M.head, cut_blocks=dblocks), "parse:start:resets:%s" % nm.replace(" ", "_"), "every accepted command start assigns the pending command's %s before the next character is read (no value of the previous command or of ignored text survives)" % nm, b.blocks[sb]["stmts"][M.start[1]]["span"]["at"])
+        # (the assignments of one start may stand before or after the statement that marks it: a whole iteration
+        # that passes the start passes the assignment)
+        after = sb in dblocks or not reaches_without(cfg, cfg.succ[sb], M.head, cut_blocks=dblocks)
+        before = sb in dblocks or not reaches_without(cfg, cfg.succ[M.head] if M.head not in dblocks else [], sb, cut_blocks=dblocks)
+        R.check(bool(dblocks) and (after or before), "parse:start:resets:%s" % nm.replace(" ", "_"), "every accepted command start assigns the pending command's %s before the next character is read (no value of the previous command or of ignored text survives)" % nm, b.blocks[sb]["stmts"][M.start[1]]["span"]["at"])
     # the skip test for start syllables without a later end syllable precedes every such assignment:
     # find the `continue` edge of the comparison max_pos[..] <= i
     found = False
